@@ -1385,6 +1385,11 @@ INDEPENDENCE_SITES = [
     ("epub_extractor.py", "read_epub", {"_extract_chapter", "EpubChapter"}, "C03/epub_extractor.py::read_epub/policy#chapter-k-element-is-computed-from-spine-item-k-only"),
     ("mail/mbox_email_extractor.py", "read_mbox_format_mail", {"parse_email_message", "message_from_bytes"},
      "C03/mbox_email_extractor.py::read_mbox_format_mail/policy#message-k-element-is-computed-from-message-k-only"),
+    ("ms_modern/pptx_extractor.py", "read_pptx", {"_process_slide_from_context", "PptxSlide"},
+     "C03/pptx_extractor.py::read_pptx/policy#slide-k-element-is-computed-from-slide-part-k-only"),
+    ("open_office/ods_extractor.py", "read_ods", {"_extract_sheet", "OdsSheet"}, "C03/ods_extractor.py::read_ods/policy#sheet-k-element-is-computed-from-table-k-only"),
+    ("ms_modern/xlsx_extractor.py", "read_xlsx", {"XlsxSheet"}, "C03/xlsx_extractor.py::read_xlsx/policy#sheet-k-element-is-computed-from-worksheet-k-only"),
+    ("ms_legacy/xls_extractor.py", "read_xls", {"XlsSheet"}, "C03/xls_extractor.py::read_xls/policy#sheet-k-element-is-computed-from-worksheet-k-only"),
 ]
 
 
